@@ -15849,6 +15849,8 @@ impl<
 		let now = std::time::SystemTime::now()
 			.duration_since(std::time::SystemTime::UNIX_EPOCH)
 			.expect("SystemTime::now() should come after SystemTime::UNIX_EPOCH");
+		#[cfg(ldk_verif)]
+		let now = crate::util::verif::now();
 
 		now
 	}
